@@ -1,8 +1,1292 @@
+// Command c15 drives property C15 ("commits end within their time budget and never deadlock").
+//
+// Three kinds of cases:
+//
+//	loop   scripted: a REAL write transaction (fs backends, in-memory L2) commits while an L2 decorator, installed
+//	       under both the transaction and its registry, decides every lock call of the phase-1 loop (node-key
+//	       Lock / IsLocked / DualLock, registry sector-lock attempts, the "DTrollbk" lock) from a generated plan and
+//	       advances a fake clock (sop.Now) by the planned amount inside that call. Refusals are real where possible
+//	       (a foreign owner really holds one of the keys in the real cache), conflicts are real (a competitor
+//	       transaction really commits into the same node). The observed sequence of decisions is the script the
+//	       Lean model (Sop.Retry.step) is run on; after every decision both sides print what comes next, the
+//	       iteration count, whether the node locks are held, and the clock.
+//	table  the in-memory L2 Lock/Unlock/IsLocked against the model's lock table (all-or-nothing, re-entry, TTL).
+//	bound  MEASUREMENTS with the real clock: opposite-order contention, a stalled holder, a holder that never
+//	       unlocks; Commit duration is compared with the model's bound + 2 s, and a follow-up transaction on the
+//	       same keys must commit.
 package main
 
 import (
+	"context"
+	"errors"
+	"fmt"
+	"math/rand"
+	"os"
+	"runtime"
+	"strings"
+	"sync"
+	"time"
+
+	"github.com/sharedcode/sop"
+	"github.com/sharedcode/sop/btree"
+	"github.com/sharedcode/sop/cache"
+	"github.com/sharedcode/sop/common"
+	"github.com/sharedcode/sop/fs"
+
 	"verifharness/c15facts"
 	"verifharness/hx"
+	"verifharness/txk"
 )
 
-func main() { hx.Main(func(o hx.RunOpts) error { return nil }, "Sop.FactsC15", c15facts.Facts, nil) }
+func main() { hx.Main(run, "Sop.FactsC15", c15facts.Facts, nil) }
+
+// ---------------------------------------------------------------------------------------------------------
+// fake clock and fake context
+
+type fakeClock struct {
+	mu   sync.Mutex
+	base time.Time
+	off  time.Duration
+	ctxs []*fakeCtx
+}
+
+func (c *fakeClock) Now() time.Time { c.mu.Lock(); defer c.mu.Unlock(); return c.base.Add(c.off) }
+func (c *fakeClock) Ms() int64      { c.mu.Lock(); defer c.mu.Unlock(); return int64(c.off / time.Millisecond) }
+func (c *fakeClock) Advance(ms int64) {
+	c.mu.Lock()
+	c.off += time.Duration(ms) * time.Millisecond
+	for _, x := range c.ctxs {
+		if !x.closed && c.off >= x.dl {
+			x.closed = true
+			close(x.done)
+		}
+	}
+	c.mu.Unlock()
+}
+
+// fakeCtx is a context whose deadline lives on the fake clock.
+type fakeCtx struct {
+	c      *fakeClock
+	dl     time.Duration
+	done   chan struct{}
+	closed bool
+}
+
+func (c *fakeClock) WithDeadline(ms int64) context.Context {
+	x := &fakeCtx{c: c, dl: time.Duration(ms) * time.Millisecond, done: make(chan struct{})}
+	c.mu.Lock()
+	c.ctxs = append(c.ctxs, x)
+	c.mu.Unlock()
+	return x
+}
+func (x *fakeCtx) Deadline() (time.Time, bool) { return x.c.base.Add(x.dl), true }
+func (x *fakeCtx) Done() <-chan struct{}       { return x.done }
+func (x *fakeCtx) Err() error {
+	x.c.mu.Lock()
+	defer x.c.mu.Unlock()
+	if x.c.off >= x.dl {
+		return context.DeadlineExceeded
+	}
+	return nil
+}
+func (x *fakeCtx) Value(any) any { return nil }
+
+type zeroSrc struct{}
+
+func (zeroSrc) Int63() int64 { return 0 }
+func (zeroSrc) Seed(int64)   {}
+
+// ---------------------------------------------------------------------------------------------------------
+// plan and recording
+
+type lockDir struct {
+	dt       int64
+	out      string // granted | refused | error
+	conflict bool   // a competitor commits into the same node while this call is in flight
+	j        int    // which key (after sorting) the foreign owner holds
+}
+type boolDir struct {
+	dt int64
+	v  bool
+	j  int
+}
+
+type plan struct {
+	locks   []lockDir
+	isl     []boolDir // v = answer yes
+	duals   []boolDir // v = granted
+	sectors []boolDir // v = busy
+	handles []boolDir // v = granted
+	sectorForever *boolDir // when the list is used up: every further attempt in the body answers this
+}
+
+type obs struct {
+	held    bool
+	partial bool
+	nkeys   int
+	clock   int64
+}
+
+type event struct {
+	kind    string // lock islocked duallock sector handle | derived: refetch body fail
+	dt      int64
+	out     string
+	rec     bool
+	pre     obs
+	derived bool
+}
+
+type caseRun struct {
+	s       *hx.Session
+	clock   *fakeClock
+	raw     sop.L2Cache
+	env     *txk.Env
+	dir     string
+	txn     *common.Transaction
+	ctx     context.Context
+	pl      plan
+	active  bool
+	events  []*event
+	exitObs *obs
+	il, ii, id, is, ih int
+	maxTime int64
+	dlMs    int64 // -1 none
+	compN   int
+	compErr error
+	foreign sop.UUID
+	// measured mode hook
+	onFirstLock func(ks []*sop.LockKey)
+	firstDone   bool
+	mu          sync.Mutex
+}
+
+type deco struct {
+	sop.L2Cache
+	h *caseRun
+}
+
+var errInjected = errors.New("verif: injected lock error")
+
+func stack() []string {
+	pcs := make([]uintptr, 40)
+	n := runtime.Callers(3, pcs)
+	fr := runtime.CallersFrames(pcs[:n])
+	var out []string
+	for {
+		f, more := fr.Next()
+		out = append(out, f.Function)
+		if !more {
+			break
+		}
+	}
+	return out
+}
+func has(st []string, sub string) bool {
+	for _, f := range st {
+		if strings.Contains(f, sub) {
+			return true
+		}
+	}
+	return false
+}
+
+// direct: the decorator method was called by phase1Commit itself.
+func direct(st []string) bool {
+	return len(st) > 0 && strings.HasSuffix(st[0], "(*Transaction).phase1Commit")
+}
+
+func (h *caseRun) observe() obs {
+	o := obs{clock: h.clock.Ms()}
+	if h.txn == nil {
+		return o
+	}
+	ks := common.VerifC15NodesKeys(h.txn)
+	o.nkeys = len(ks)
+	n := 0
+	for _, k := range ks {
+		if ok, _ := h.raw.IsLocked(context.Background(), []*sop.LockKey{k}); ok {
+			n++
+		}
+	}
+	o.held = n > 0 && n == len(ks)
+	o.partial = n > 0 && n < len(ks)
+	return o
+}
+
+func (h *caseRun) budgetExceeded(clock int64) bool {
+	return clock > h.maxTime || (h.dlMs >= 0 && clock >= h.dlMs)
+}
+
+func (d *deco) Lock(ctx context.Context, dur time.Duration, ks []*sop.LockKey) (bool, sop.UUID, error) {
+	h := d.h
+	if h == nil || !h.active {
+		return d.L2Cache.Lock(ctx, dur, ks)
+	}
+	st := stack()
+	if !direct(st) {
+		return d.L2Cache.Lock(ctx, dur, ks)
+	}
+	if h.onFirstLock != nil {
+		h.mu.Lock()
+		first := !h.firstDone
+		h.firstDone = true
+		h.mu.Unlock()
+		if first {
+			h.onFirstLock(ks)
+		}
+		return d.L2Cache.Lock(ctx, dur, ks)
+	}
+	pre := h.observe()
+	dir := lockDir{out: "granted"}
+	if h.il < len(h.pl.locks) {
+		dir = h.pl.locks[h.il]
+	}
+	h.il++
+	// direct oracle (loop_checks_time_first): a lock attempt is never made once the budget is exhausted
+	if h.budgetExceeded(pre.clock) {
+		h.s.Fail("C15/lock-attempt-after-deadline", "the phase-1 loop called Lock(nodesKeys) although the budget was already exhausted at the loop head",
+			fmt.Sprintf("clock=%dms maxTime=%dms deadline=%d attempt=%d", pre.clock, h.maxTime, h.dlMs, h.il))
+	}
+	if pre.partial {
+		h.s.Fail("C15/partial-hold-while-waiting", "the transaction came back to the loop head holding a proper subset of its node locks",
+			fmt.Sprintf("attempt=%d keys=%d", h.il, pre.nkeys))
+	}
+	h.clock.Advance(dir.dt)
+	if dir.conflict {
+		h.active = false
+		if err := h.competitor(); err != nil && h.compErr == nil {
+			h.compErr = err
+		}
+		h.active = true
+	}
+	ev := &event{kind: "lock", dt: dir.dt, pre: pre}
+	h.events = append(h.events, ev)
+	switch dir.out {
+	case "error":
+		ev.out = "error"
+		return false, sop.NilUUID, errInjected
+	case "refused":
+		ev.out = "refused"
+		if len(ks) > 0 && !pre.held {
+			// a foreign owner really holds key j (in sorted order): the real Lock is refused after acquiring j keys
+			sorted := append([]*sop.LockKey(nil), ks...)
+			sortKeys(sorted)
+			fk := &sop.LockKey{Key: sorted[dir.j%len(sorted)].Key, LockID: h.foreign}
+			if ok, _, _ := h.raw.Lock(ctx, time.Hour, []*sop.LockKey{fk}); ok {
+				ok2, owner, err := d.L2Cache.Lock(ctx, dur, ks)
+				// all-or-nothing, observed on the real cache right after the refusal
+				n := 0
+				for _, k := range ks {
+					if l, _ := h.raw.IsLocked(ctx, []*sop.LockKey{k}); l {
+						n++
+					}
+				}
+				h.raw.Unlock(ctx, []*sop.LockKey{fk})
+				if ok2 {
+					ev.out = "granted"
+					h.s.Fail("C15/lock-granted-over-foreign-holder", "Lock was granted although another owner holds one of the keys", fk.Key)
+				} else if n > 0 {
+					h.s.Fail("C15/lock-refused-leaves-partial-hold", "a refused Lock left some of the keys locked by the caller", fmt.Sprintf("%d of %d", n, len(ks)))
+				}
+				h.s.Hit("lock_refused_real_j" + fmt.Sprint(min(dir.j%len(sorted), 3)))
+				return ok2, owner, err
+			}
+		}
+		h.s.Hit("lock_refused_forced")
+		return false, h.foreign, nil
+	}
+	ok, owner, err := d.L2Cache.Lock(ctx, dur, ks)
+	ev.out = "granted"
+	if !ok {
+		ev.out = "refused"
+	}
+	if err != nil {
+		ev.out = "error"
+	}
+	return ok, owner, err
+}
+
+func sortKeys(ks []*sop.LockKey) {
+	for i := 1; i < len(ks); i++ {
+		for j := i; j > 0 && ks[j].Key < ks[j-1].Key; j-- {
+			ks[j], ks[j-1] = ks[j-1], ks[j]
+		}
+	}
+}
+
+func (d *deco) IsLocked(ctx context.Context, ks []*sop.LockKey) (bool, error) {
+	h := d.h
+	if h == nil || !h.active || h.onFirstLock != nil {
+		return d.L2Cache.IsLocked(ctx, ks)
+	}
+	if !direct(stack()) {
+		return d.L2Cache.IsLocked(ctx, ks)
+	}
+	pre := h.observe()
+	dir := boolDir{v: true}
+	if h.ii < len(h.pl.isl) {
+		dir = h.pl.isl[h.ii]
+	}
+	h.ii++
+	h.clock.Advance(dir.dt)
+	ev := &event{kind: "islocked", dt: dir.dt, pre: pre, out: "1"}
+	h.events = append(h.events, ev)
+	if !dir.v {
+		ev.out = "0"
+		return false, nil
+	}
+	ok, err := d.L2Cache.IsLocked(ctx, ks)
+	if !ok {
+		ev.out = "0"
+	}
+	return ok, err
+}
+
+func (d *deco) DualLock(ctx context.Context, dur time.Duration, ks []*sop.LockKey) (bool, sop.UUID, error) {
+	h := d.h
+	if h == nil || !h.active || h.onFirstLock != nil {
+		return d.L2Cache.DualLock(ctx, dur, ks)
+	}
+	st := stack()
+	inLoop := has(st, "(*Transaction).phase1Commit") && !has(st, "(*Transaction).rollback")
+	switch {
+	case inLoop && len(st) > 0 && (strings.HasSuffix(st[0], "(*hashmap).findAndAdd") || strings.HasSuffix(st[0], "(*hashmap).lockFileBlockRegion")):
+		// one attempt of a sector-lock wait loop (the file pre-allocation lock taken below findAndAdd is not one)
+		rec := strings.HasSuffix(st[0], "(*hashmap).lockFileBlockRegion")
+		pre := h.observe()
+		dir := boolDir{}
+		if h.is < len(h.pl.sectors) {
+			dir = h.pl.sectors[h.is]
+		} else if h.pl.sectorForever != nil {
+			dir = *h.pl.sectorForever
+		}
+		h.is++
+		h.clock.Advance(dir.dt)
+		ev := &event{kind: "sector", dt: dir.dt, pre: pre, out: "0", rec: rec}
+		h.events = append(h.events, ev)
+		if dir.v {
+			ev.out = "1"
+			return false, h.foreign, nil
+		}
+		return d.L2Cache.DualLock(ctx, dur, ks)
+	case inLoop && has(st, "handleRegistrySectorLockTimeout"):
+		pre := h.observe()
+		dir := boolDir{v: true}
+		if h.ih < len(h.pl.handles) {
+			dir = h.pl.handles[h.ih]
+		}
+		h.ih++
+		h.clock.Advance(dir.dt)
+		ev := &event{kind: "handle", dt: dir.dt, pre: pre, out: "1"}
+		h.events = append(h.events, ev)
+		if !dir.v {
+			ev.out = "0"
+			return false, h.foreign, nil
+		}
+		return d.L2Cache.DualLock(ctx, dur, ks)
+	case direct(st):
+		pre := h.observe()
+		dir := boolDir{v: true}
+		if h.id < len(h.pl.duals) {
+			dir = h.pl.duals[h.id]
+		}
+		h.id++
+		h.clock.Advance(dir.dt)
+		hk := "0"
+		if len(ks) > 0 {
+			hk = "1"
+		}
+		h.events = append(h.events, &event{kind: "refetch", dt: 0, out: hk, pre: pre, derived: true})
+		ev := &event{kind: "duallock", dt: dir.dt, pre: pre, out: "1"}
+		h.events = append(h.events, ev)
+		if !dir.v {
+			ev.out = "0"
+			if len(ks) > 0 {
+				sorted := append([]*sop.LockKey(nil), ks...)
+				sortKeys(sorted)
+				fk := &sop.LockKey{Key: sorted[dir.j%len(sorted)].Key, LockID: h.foreign}
+				// the keys may still be held by the transaction from the head Lock (same LockKeys): release is its job
+				if ok, _, _ := h.raw.Lock(ctx, time.Hour, []*sop.LockKey{fk}); ok {
+					ok2, owner, err := d.L2Cache.DualLock(ctx, dur, ks)
+					h.raw.Unlock(ctx, []*sop.LockKey{fk})
+					if ok2 {
+						ev.out = "1"
+					}
+					h.s.Hit("duallock_refused_real")
+					return ok2, owner, err
+				}
+			}
+			h.s.Hit("duallock_refused_forced")
+			return false, h.foreign, nil
+		}
+		ok, owner, err := d.L2Cache.DualLock(ctx, dur, ks)
+		if !ok {
+			ev.out = "0"
+		}
+		return ok, owner, err
+	}
+	return d.L2Cache.DualLock(ctx, dur, ks)
+}
+
+func (d *deco) Unlock(ctx context.Context, ks []*sop.LockKey) error {
+	h := d.h
+	if h != nil && h.active && h.onFirstLock == nil && h.exitObs == nil {
+		st := stack()
+		if has(st, "(*Transaction).unlockNodesKeys") && has(st, "(*Transaction).Phase1Commit") && !has(st, "(*Transaction).phase1Commit") {
+			o := h.observe()
+			h.exitObs = &o
+		}
+	}
+	return d.L2Cache.Unlock(ctx, ks)
+}
+
+// ---------------------------------------------------------------------------------------------------------
+// store set-up
+
+const storeName = "c15s"
+
+func must(err error) {
+	if err != nil {
+		panic(err)
+	}
+}
+
+// setup creates the store with n items (keys 0..n-1) through an undecorated transaction.
+func setup(dir string, raw sop.L2Cache, slot, n int) error {
+	ctx := context.Background()
+	env := &txk.Env{Dir: dir, HashMod: 64, L2: raw, Canon: txk.NewCanon()}
+	t, err := env.NewTxn(ctx, sop.ForWriting, 15*time.Minute, nil)
+	if err != nil {
+		return err
+	}
+	if err := t.T.Begin(ctx); err != nil {
+		return err
+	}
+	b, err := txk.NewBtree[int, string](ctx, t, env.StoreOpts(storeName, slot, true))
+	if err != nil {
+		return err
+	}
+	for i := 0; i < n; i++ {
+		if _, err := b.Add(ctx, i*10, fmt.Sprintf("v%d", i)); err != nil {
+			return err
+		}
+	}
+	return t.T.Commit(ctx)
+}
+
+type txnOps struct {
+	upd []int // keys to update
+	add []int // keys to add
+}
+
+func applyOps(ctx context.Context, b btree.BtreeInterface[int, string], ops txnOps, tag string) error {
+	for _, k := range ops.upd {
+		if ok, err := b.Update(ctx, k, tag); err != nil || !ok {
+			return fmt.Errorf("update %d: %v %v", k, ok, err)
+		}
+	}
+	for _, k := range ops.add {
+		if ok, err := b.Add(ctx, k, tag); err != nil || !ok {
+			return fmt.Errorf("add %d: %v %v", k, ok, err)
+		}
+	}
+	return nil
+}
+
+func (h *caseRun) competitor() error {
+	h.compN++
+	ctx := context.Background()
+	env := &txk.Env{Dir: h.dir, HashMod: 64, L2: h.raw, Canon: h.env.Canon}
+	t, err := env.NewTxn(ctx, sop.ForWriting, 15*time.Minute, nil)
+	if err != nil {
+		return err
+	}
+	if err := t.T.Begin(ctx); err != nil {
+		return err
+	}
+	b, err := txk.OpenBtree[int, string](ctx, t, storeName)
+	if err != nil {
+		return err
+	}
+	// a key next to the first key the transaction under test updates: same leaf, different item
+	if ok, err := b.Update(ctx, 10, fmt.Sprintf("comp%d", h.compN)); err != nil || !ok {
+		t.T.Rollback(ctx)
+		return fmt.Errorf("competitor update: %v %v", ok, err)
+	}
+	return t.T.Commit(ctx)
+}
+
+func followUp(dir string, raw sop.L2Cache, ops txnOps) error {
+	ctx := context.Background()
+	env := &txk.Env{Dir: dir, HashMod: 64, L2: raw, Canon: txk.NewCanon()}
+	t, err := env.NewTxn(ctx, sop.ForWriting, 15*time.Minute, nil)
+	if err != nil {
+		return err
+	}
+	if err := t.T.Begin(ctx); err != nil {
+		return err
+	}
+	b, err := txk.OpenBtree[int, string](ctx, t, storeName)
+	if err != nil {
+		return err
+	}
+	keys := ops.upd
+	if len(keys) == 0 {
+		keys = []int{0}
+		if ok, _ := b.Find(ctx, 0, false); !ok {
+			if _, err := b.Add(ctx, 0, "follow"); err != nil {
+				return err
+			}
+			return t.T.Commit(ctx)
+		}
+	}
+	for _, k := range keys {
+		if ok, err := b.Update(ctx, k, "follow"); err != nil || !ok {
+			t.T.Rollback(ctx)
+			return fmt.Errorf("follow-up update %d: %v %v", k, ok, err)
+		}
+	}
+	return t.T.Commit(ctx)
+}
+
+func classify(err error) string {
+	if err == nil {
+		return "success"
+	}
+	var te sop.ErrTimeout
+	if errors.As(err, &te) && te.Name == "transaction" {
+		return "timeout"
+	}
+	if strings.Contains(err.Error(), "exceeded retry limit") {
+		return "retrycap"
+	}
+	return "error"
+}
+
+// ---------------------------------------------------------------------------------------------------------
+// one scripted case
+
+type scen struct {
+	name    string
+	items   int // items in the store before the transaction under test (0 = empty store: new root)
+	slot    int
+	ops     txnOps
+	maxTime int64
+	dlMs    int64
+	pl      plan
+}
+
+func b01(b bool) string {
+	if b {
+		return "1"
+	}
+	return "0"
+}
+
+func runLoopCase(s *hx.Session, sc scen) error {
+	dir, err := os.MkdirTemp(hx.WorkRoot(), "c15-")
+	if err != nil {
+		return err
+	}
+	defer os.RemoveAll(dir)
+	cache.VerifResetGlobalL1()
+	raw := cache.NewL2InMemoryCache()
+	cache.GetGlobalL1Cache(raw)
+	clk := &fakeClock{base: time.Now()}
+	sop.Now = clk.Now
+	defer func() { sop.Now = time.Now }()
+	if err := setup(dir, raw, sc.slot, sc.items); err != nil {
+		return fmt.Errorf("setup: %w", err)
+	}
+	h := &caseRun{s: s, clock: clk, raw: raw, dir: dir, pl: sc.pl, maxTime: sc.maxTime, dlMs: sc.dlMs, foreign: sop.NewUUID()}
+	env := &txk.Env{Dir: dir, HashMod: 64, L2: &deco{L2Cache: raw, h: h}, Canon: txk.NewCanon()}
+	h.env = env
+	var ctx context.Context = context.Background()
+	if sc.dlMs >= 0 {
+		ctx = clk.WithDeadline(sc.dlMs)
+	}
+	h.ctx = ctx
+	t, err := env.NewTxn(context.Background(), sop.ForWriting, time.Duration(sc.maxTime)*time.Millisecond, nil)
+	if err != nil {
+		return err
+	}
+	h.txn = t.P
+	if err := t.T.Begin(context.Background()); err != nil {
+		return err
+	}
+	b, err := txk.OpenBtree[int, string](context.Background(), t, storeName)
+	if err != nil {
+		return err
+	}
+	if err := applyOps(context.Background(), b, sc.ops, "T"); err != nil {
+		return err
+	}
+	h.active = true
+	cerr := t.T.Commit(ctx)
+	h.active = false
+	fc := classify(cerr)
+	if os.Getenv("C15_DEBUG") != "" && cerr != nil {
+		fmt.Fprintf(os.Stderr, "C15DEBUG %s: %v\n", sc.name, cerr)
+	}
+	final := h.observe()
+	endClock := final.clock
+	if h.exitObs != nil {
+		final = *h.exitObs
+	}
+
+	// ---- translate the recorded decisions into the model's script ----
+	type tev struct {
+		line string
+		ev   *event
+		post obs
+		next string
+		idx  int
+	}
+	var out []*tev
+	stage := "head" // head afterLock refetch body done
+	need := false
+	push := func(line string, ev *event) { out = append(out, &tev{line: line, ev: ev}) }
+	recIdx := map[*tev]int{}
+	_ = recIdx
+	for i, e := range h.events {
+		_ = i
+		switch e.kind {
+		case "lock":
+			if stage == "body" {
+				push("body 0 conflict", &event{kind: "body", out: "conflict", derived: true, pre: e.pre})
+				need = true
+			}
+			push(fmt.Sprintf("lock %d %s", e.dt, e.out), e)
+			switch e.out {
+			case "granted":
+				stage = "afterLock"
+			case "refused":
+				stage, need = "head", true
+			default:
+				stage = "done"
+			}
+		case "islocked":
+			push(fmt.Sprintf("islocked %d %s", e.dt, e.out), e)
+			if e.out == "1" {
+				if need {
+					stage = "refetch"
+				} else {
+					stage = "body"
+				}
+			} else {
+				stage = "head"
+			}
+		case "refetch":
+			push(fmt.Sprintf("refetch %d %s", e.dt, e.out), e)
+		case "duallock":
+			push(fmt.Sprintf("duallock %d %s", e.dt, e.out), e)
+			if e.out == "1" {
+				stage, need = "body", false
+			} else {
+				stage, need = "head", true
+			}
+		case "sector":
+			push(fmt.Sprintf("sector %d %s %s", e.dt, e.out, b01(e.rec)), e)
+			stage = "body"
+		case "handle":
+			push(fmt.Sprintf("handle %d %s", e.dt, e.out), e)
+			// recoverable and granted: the loop goes on (or hits the cap); otherwise the commit ends with the error
+			stage = "handled"
+		}
+	}
+	switch stage {
+	case "body":
+		last := h.events[len(h.events)-1]
+		sectorCtx := last.kind == "sector" && last.out == "1" && fc == "error"
+		switch {
+		case fc == "success":
+			push("body 0 ok", &event{kind: "body", out: "ok", derived: true})
+		case fc == "timeout" || fc == "retrycap":
+			push("body 0 conflict", &event{kind: "body", out: "conflict", derived: true})
+		case !sectorCtx:
+			push("fail 0", &event{kind: "fail", derived: true})
+		}
+	case "refetch", "afterLock":
+		if fc == "error" {
+			push("fail 0", &event{kind: "fail", derived: true})
+		}
+	}
+	// post observation of a translated event = pre observation of the next recorded (non-derived) decision
+	for i := range out {
+		out[i].post = final
+		for j := i + 1; j < len(out); j++ {
+			if !out[j].ev.derived || out[j].ev.kind == "refetch" {
+				out[j-0].idx = j
+				out[i].post = out[j].ev.pre
+				break
+			}
+		}
+	}
+	kindOf := func(i int) string {
+		if i < len(out) {
+			return out[i].ev.kind
+		}
+		return "exit:" + fc
+	}
+	hdl := "-"
+	if sc.dlMs >= 0 {
+		hdl = fmt.Sprint(sc.dlMs)
+	}
+	hasKeys := false
+	if len(h.events) > 0 {
+		hasKeys = h.events[0].pre.nkeys > 0
+	}
+	s.BeginCase(fmt.Sprintf("loop %d %s 0 %s", sc.maxTime, hdl, b01(hasKeys)))
+	iter := 0
+	nx := kindOf(0)
+	if nx == "lock" {
+		iter = 1
+	}
+	first := final
+	if len(h.events) > 0 {
+		first = h.events[0].pre
+	}
+	s.Op("start", fmt.Sprintf("next=%s iter=%d held=%s clock=%d", nx, iter, b01(first.held), first.clock))
+	retry := 0
+	need = false
+	for i, t := range out {
+		e := t.ev
+		nk := kindOf(i + 1)
+		next := nk
+		if nk == "fail" { // the model names the stage it is in, not the error that ends it
+			switch {
+			case e.kind == "islocked" && e.out == "1" && need:
+				next = "refetch"
+			case e.kind == "lock":
+				next = "islocked"
+			case e.kind == "refetch":
+				next = "duallock"
+			default:
+				next = "body"
+			}
+		}
+		switch {
+		case e.kind == "islocked" && e.out == "1" && !need, e.kind == "duallock" && e.out == "1", e.kind == "sector" && e.out == "0":
+			next = "body"
+		case e.kind == "sector" && e.out == "1":
+			switch nk {
+			case "sector":
+				next = "wait"
+			case "handle":
+				next = "handle"
+			default:
+				next = "exit:" + fc
+			}
+		}
+		switch {
+		case e.kind == "lock" && e.out == "refused", e.kind == "duallock" && e.out == "0":
+			need = true
+		case e.kind == "duallock" && e.out == "1":
+			need = false
+		case e.kind == "body" && e.out == "conflict":
+			need = true
+			retry++
+		case e.kind == "handle" && e.out == "1" && out[i-1].ev.rec:
+			need = true
+			retry++
+		}
+		if next == "lock" {
+			iter++
+		}
+		held := b01(t.post.held)
+		if next == "body" || next == "refetch" || next == "exit:success" || e.kind == "refetch" {
+			held = "-"
+		}
+		s.Op(t.line, fmt.Sprintf("next=%s iter=%d held=%s clock=%d", next, iter, held, t.post.clock))
+		// direct oracle (negation of Statement_C15): the code goes on waiting for a sector lock although the budget is gone
+		if next == "wait" && h.budgetExceeded(t.post.clock) {
+			s.Fail("C15/sector-lock-wait-ignores-maxtime",
+				"a registry sector-lock wait continues after the transaction's budget (maxTime / context deadline) is exhausted",
+				fmt.Sprintf("scenario=%s maxTime=%dms deadline=%s waited until clock=%dms; Commit returned at clock=%dms (%s)", sc.name, sc.maxTime, hdl, t.post.clock, endClock, fc))
+		}
+	}
+	s.Op("final", fmt.Sprintf("exit=%s iter=%d retry=%d", fc, iter, retry))
+
+	// ---- direct oracles on the outcome ----
+	s.Hit("scen:" + sc.name)
+	s.Hit("exit:" + fc)
+	if len(h.events) > 1 {
+		s.Nontrivial()
+	}
+	selfConflict := cerr != nil && strings.Contains(cerr.Error(), "call detected conflict") && h.compN == 0
+	if selfConflict {
+		// no other transaction exists in this case: the "conflict" is with the transaction's own item lock records
+		s.Fail("C15/refused-lock-retry-self-conflict",
+			"after a refused node Lock the retry refetches, re-registers its updates under NEW item LockIDs and then fails lockTrackedItems on its OWN earlier lock records",
+			fmt.Sprintf("scenario=%s: %v", sc.name, cerr))
+	}
+	if h.compErr != nil {
+		s.Fail("C15/harness-competitor-failed", "the competitor transaction of the harness could not commit", h.compErr.Error())
+	}
+	if fc == "retrycap" && retry != common.VerifC15Phase1MaxRetry() {
+		s.Fail("C15/retry-cap-not-at-limit", "the loop gave up with the retry-limit error at a different count", fmt.Sprint(retry))
+	}
+	if retry > common.VerifC15Phase1MaxRetry() {
+		s.Fail("C15/retry-cap-exceeded", "more unsuccessful rounds than phase1CommitMaxRetryCount", fmt.Sprint(retry))
+	}
+	// give-up releases: nothing of the transaction's node keys stays locked, and a follow-up on the same keys commits
+	after := h.observe()
+	if fc != "success" {
+		if after.held || after.partial {
+			s.Fail("C15/locks-held-after-giveup", "node locks are still held after Commit returned an error", fmt.Sprintf("%+v", after))
+		}
+		for _, le := range cache.VerifLockEntries(raw) {
+			if strings.HasPrefix(le.Key, "lock:") && len(le.Key) == 5+36 && le.Expiration.After(time.Now()) {
+				s.Fail("C15/locks-held-after-giveup", "a node lock entry is still live in the L2 cache after Commit returned an error", le.Key)
+			}
+		}
+	}
+	sop.Now = time.Now
+	if err := followUp(dir, raw, sc.ops); err != nil {
+		if selfConflict && strings.Contains(err.Error(), "call detected conflict") {
+			s.Fail("C15/item-lock-records-leak-after-self-conflict",
+				"the item lock records of a transaction that gave up after its refetch self-conflict stay in the L2 cache (rollback unlocks only records it believes it owns): a follow-up on the same items fails until their TTL (= the dead transaction's maxTime)",
+				err.Error())
+		} else {
+			s.Fail("C15/follow-up-blocked", "a follow-up transaction on the same keys could not commit after the transaction under test ended ("+fc+")", err.Error())
+		}
+	} else {
+		s.Hit("followup_ok_after_" + fc)
+	}
+	return nil
+}
+
+// ---------------------------------------------------------------------------------------------------------
+// generators
+
+func dts(p *hx.Prng) int64 {
+	return []int64{0, 0, 0, 1, 50, 400, 999, 1000, 1001, 1500, 2500, 60000}[p.Intn(12)]
+}
+
+func genScen(p *hx.Prng, i int) scen {
+	sc := scen{items: 20, slot: 4, maxTime: []int64{2000, 3000, 5000, 900000}[p.Intn(4)], dlMs: -1}
+	if p.Chance(1, 4) {
+		sc.dlMs = []int64{1000, 2500, 4000, 100000}[p.Intn(4)]
+	}
+	nupd := 1 + p.Intn(4)
+	for k := 0; k < nupd; k++ {
+		sc.ops.upd = append(sc.ops.upd, []int{0, 50, 100, 150, 190}[k])
+	}
+	switch k := p.Intn(10); {
+	case k == 0:
+		sc.name = "clean"
+	case k <= 3:
+		sc.name = "refusals"
+		n := 1 + p.Intn(5)
+		for j := 0; j < n; j++ {
+			sc.pl.locks = append(sc.pl.locks, lockDir{dt: dts(p), out: "refused", j: p.Intn(5)})
+		}
+		if p.Chance(1, 3) {
+			sc.pl.duals = append(sc.pl.duals, boolDir{dt: dts(p), v: false, j: p.Intn(5)})
+		}
+		if p.Chance(1, 6) {
+			sc.pl.locks = append(sc.pl.locks, lockDir{dt: dts(p), out: "error"})
+		}
+	case k <= 5:
+		sc.name = "islocked-no"
+		n := 1 + p.Intn(4)
+		for j := 0; j < n; j++ {
+			sc.pl.isl = append(sc.pl.isl, boolDir{dt: dts(p), v: false})
+		}
+		if p.Chance(1, 2) {
+			sc.pl.locks = append(sc.pl.locks, lockDir{dt: dts(p), out: "granted"}, lockDir{dt: dts(p), out: "refused", j: p.Intn(3)})
+		}
+	case k <= 7:
+		sc.name = "conflicts"
+		sc.maxTime = 900000
+		n := 1 + p.Intn(3)
+		for j := 0; j < n; j++ {
+			sc.pl.locks = append(sc.pl.locks, lockDir{dt: []int64{0, 10, 700}[p.Intn(3)], out: "granted", conflict: true})
+		}
+		if p.Chance(1, 3) {
+			sc.maxTime = 2000
+		}
+	default:
+		sc.name = "sector"
+		sc.ops.upd = sc.ops.upd[:1]
+		if p.Chance(1, 3) {
+			sc.name = "sector-newroot"
+			sc.items = 0
+			sc.ops = txnOps{add: []int{7}}
+		} else {
+			sc.ops.add = []int{200, 201, 202, 203, 204}
+		}
+		// a few free attempts, then a wait
+		nfree := p.Intn(3)
+		for j := 0; j < nfree; j++ {
+			sc.pl.sectors = append(sc.pl.sectors, boolDir{dt: 0, v: false})
+		}
+		nbusy := 1 + p.Intn(5)
+		for j := 0; j < nbusy; j++ {
+			sc.pl.sectors = append(sc.pl.sectors, boolDir{dt: []int64{100, 30000, 60000, 90000, 180001}[p.Intn(5)], v: true})
+		}
+		if p.Chance(1, 2) {
+			sc.pl.sectorForever = &boolDir{dt: 60000, v: true}
+		}
+		sc.pl.handles = append(sc.pl.handles, boolDir{dt: 0, v: p.Chance(3, 4)})
+	}
+	return sc
+}
+
+// directed corpus; the first is the Lean witness of C15_counterexample (finding C15-F1)
+func corpus() []scen {
+	w := scen{name: "F1-witness", items: 20, slot: 4, maxTime: 2000, dlMs: -1, ops: txnOps{upd: []int{0}, add: []int{200, 201, 202, 203, 204}}}
+	w.pl.sectorForever = &boolDir{dt: 60000, v: true}
+	w2 := scen{name: "F1-witness-newroot", items: 0, slot: 4, maxTime: 2000, dlMs: -1, ops: txnOps{add: []int{7}}}
+	w2.pl.sectorForever = &boolDir{dt: 60000, v: true}
+	cap30 := scen{name: "retry-cap", items: 20, slot: 4, maxTime: 900000, dlMs: -1, ops: txnOps{upd: []int{0, 100}}}
+	for j := 0; j < 31; j++ {
+		cap30.pl.locks = append(cap30.pl.locks, lockDir{out: "granted", conflict: true})
+	}
+	clean := scen{name: "clean", items: 20, slot: 4, maxTime: 2000, dlMs: -1, ops: txnOps{upd: []int{0, 100}}}
+	late := scen{name: "refused-then-late", items: 20, slot: 4, maxTime: 2000, dlMs: -1, ops: txnOps{upd: []int{0, 100, 190}}}
+	late.pl.locks = []lockDir{{dt: 1000, out: "refused", j: 1}, {dt: 1001, out: "refused", j: 2}}
+	edge := scen{name: "refused-edge", items: 20, slot: 4, maxTime: 2000, dlMs: -1, ops: txnOps{upd: []int{0, 100, 190}}}
+	edge.pl.locks = []lockDir{{dt: 2000, out: "refused", j: 0}, {dt: 1, out: "refused", j: 1}}
+	ctxd := scen{name: "ctx-deadline", items: 20, slot: 4, maxTime: 5000, dlMs: 1000, ops: txnOps{upd: []int{0, 100}}}
+	ctxd.pl.locks = []lockDir{{dt: 999, out: "refused", j: 0}, {dt: 1, out: "refused", j: 1}}
+	wctx := scen{name: "sector-ctx", items: 20, slot: 4, maxTime: 2000, dlMs: 100000, ops: txnOps{upd: []int{0}, add: []int{200, 201, 202, 203, 204}}}
+	wctx.pl.sectorForever = &boolDir{dt: 60000, v: true}
+	return []scen{w, w2, clean, late, edge, ctxd, wctx, cap30}
+}
+
+// ---------------------------------------------------------------------------------------------------------
+// lock table cases (real in-memory L2 against the model's table)
+
+func runTableCase(s *hx.Session, p *hx.Prng) {
+	raw := cache.NewL2InMemoryCache()
+	ctx := context.Background()
+	owners := []sop.UUID{sop.NewUUID(), sop.NewUUID(), sop.NewUUID()}
+	names := []string{"a", "b", "c", "d", "e"}
+	s.BeginCase("table")
+	now := 1
+	n := 4 + p.Intn(10)
+	mask := func(o int, ks []string) string {
+		if len(ks) == 0 {
+			return "-"
+		}
+		var b strings.Builder
+		for _, k := range ks {
+			lk := &sop.LockKey{Key: raw.FormatLockKey(k), LockID: owners[o]}
+			if ok, _ := raw.IsLocked(ctx, []*sop.LockKey{lk}); ok {
+				b.WriteByte('1')
+			} else {
+				b.WriteByte('0')
+			}
+		}
+		return b.String()
+	}
+	sawRefusedPartial, sawExpiry := false, false
+	for i := 0; i < n; i++ {
+		o := p.Intn(3)
+		nk := 1 + p.Intn(4)
+		var ks []string
+		for j := 0; j < nk; j++ {
+			ks = append(ks, names[p.Intn(len(names))])
+		}
+		lks := make([]*sop.LockKey, len(ks))
+		for j, k := range ks {
+			lks[j] = &sop.LockKey{Key: raw.FormatLockKey(k), LockID: owners[o]}
+		}
+		kl := strings.Join(ks, ",")
+		switch p.Intn(6) {
+		case 0:
+			raw.Unlock(ctx, lks)
+			s.Op(fmt.Sprintf("unlock %d %d %s", now, o+1, kl), mask(o, ks))
+		case 1:
+			ok, _ := raw.IsLocked(ctx, lks)
+			s.Op(fmt.Sprintf("islocked %d %d %s", now, o+1, kl), b01(ok)+" "+mask(o, ks))
+		default:
+			short := p.Chance(1, 4)
+			before := mask(o, ks)
+			if short {
+				ok, _, _ := raw.Lock(ctx, 3*time.Millisecond, lks)
+				s.Op(fmt.Sprintf("lockall %d 0 %d %s", now, o+1, kl), b01(ok)+" "+mask(o, ks))
+				time.Sleep(6 * time.Millisecond) // the short locks are expired at the next logical instant
+				sawExpiry = sawExpiry || ok
+			} else {
+				ok, _, _ := raw.Lock(ctx, time.Hour, lks)
+				after := mask(o, ks)
+				s.Op(fmt.Sprintf("lockall %d 1000000 %d %s", now, o+1, kl), b01(ok)+" "+after)
+				if !ok {
+					// all-or-nothing: nothing newly held
+					for j := range after {
+						if after[j] == '1' && before[j] == '0' {
+							s.Fail("C15/lock-refused-leaves-partial-hold", "a refused Lock left a key newly locked by the caller", kl)
+						}
+					}
+					if len(ks) > 1 {
+						sawRefusedPartial = true
+					}
+				}
+			}
+		}
+		now++
+	}
+	s.Hit("table")
+	if sawRefusedPartial {
+		s.Hit("table_refused_multi")
+		s.Nontrivial()
+	}
+	if sawExpiry {
+		s.Hit("table_ttl_expiry")
+	}
+}
+
+// ---------------------------------------------------------------------------------------------------------
+// measurements (real clock)
+
+type measured struct {
+	name string
+	dur  time.Duration
+	err  error
+}
+
+func openAndCommit(dir string, l2 sop.L2Cache, maxTime time.Duration, ops txnOps, tag string, sc *txk.Script) (time.Duration, error) {
+	ctx := context.Background()
+	env := &txk.Env{Dir: dir, HashMod: 64, L2: l2, Canon: txk.NewCanon()}
+	t, err := env.NewTxn(ctx, sop.ForWriting, maxTime, sc)
+	if err != nil {
+		return 0, err
+	}
+	if err := t.T.Begin(ctx); err != nil {
+		return 0, err
+	}
+	b, err := txk.OpenBtree[int, string](ctx, t, storeName)
+	if err != nil {
+		return 0, err
+	}
+	if err := applyOps(ctx, b, ops, tag); err != nil {
+		return 0, err
+	}
+	t0 := time.Now()
+	err = t.T.Commit(ctx)
+	return time.Since(t0), err
+}
+
+func runMeasured(s *hx.Session, p *hx.Prng, kind int) error {
+	dir, err := os.MkdirTemp(hx.WorkRoot(), "c15m-")
+	if err != nil {
+		return err
+	}
+	defer os.RemoveAll(dir)
+	cache.VerifResetGlobalL1()
+	raw := cache.NewL2InMemoryCache()
+	cache.GetGlobalL1Cache(raw)
+	sop.Now = time.Now
+	if err := setup(dir, raw, 4, 20); err != nil {
+		return err
+	}
+	sectorCap := int64(fs.VerifC15LockSectorRetryTimeout() / time.Millisecond)
+	capRetry := common.VerifC15Phase1MaxRetry()
+	selfConf := false
+	check := func(name string, maxTime time.Duration, d time.Duration, err error, mustSucceed bool) {
+		if err != nil && strings.Contains(err.Error(), "call detected conflict") {
+			selfConf = true
+		}
+		// no sector lock is contended in these scenarios, so the model's bound is the budget itself (+ 2 s of slack
+		// for scheduling, file-system latency and the 20–80 ms sleeps)
+		bound := maxTime + 2*time.Second
+		s.Hit("measured:" + name + ":" + classify(err))
+		if d > bound {
+			s.Fail("C15/measured-commit-exceeds-bound", "MEASUREMENT: Commit took longer than the model's bound + 2 s",
+				fmt.Sprintf("%s: %v > %v (%v)", name, d, bound, err))
+		}
+		if mustSucceed && err != nil && strings.Contains(err.Error(), "call detected conflict") {
+			s.Fail("C15/refused-lock-retry-self-conflict",
+				"MEASUREMENT: a waiter with enough budget to outwait the holder was refused once, refetched, and then failed lockTrackedItems on its OWN earlier item lock records",
+				name+": "+err.Error())
+		} else if mustSucceed && err != nil {
+			s.Fail("C15/measured-commit-failed", "MEASUREMENT: a commit that had enough budget to outwait the other party failed", name+": "+err.Error())
+		}
+	}
+	hdr := func(mt time.Duration) {
+		s.BeginCase("bound")
+		ms := int64(mt / time.Millisecond)
+		s.Op(fmt.Sprintf("bound %d -", ms), fmt.Sprintf("%d %d %d", ms, sectorCap, capRetry))
+		s.Nontrivial()
+	}
+	switch kind {
+	case 0: // two transactions touching the same keys in opposite order
+		mt := 3 * time.Second
+		hdr(mt)
+		var wg sync.WaitGroup
+		res := make([]measured, 2)
+		// the same nodes in opposite order, different items (the same items would be an item-level conflict, refused at once)
+		opsA := txnOps{upd: []int{0, 100, 190}}
+		opsB := txnOps{upd: []int{180, 110, 10}}
+		for i, ops := range []txnOps{opsA, opsB} {
+			wg.Add(1)
+			go func(i int, ops txnOps) {
+				defer wg.Done()
+				d, err := openAndCommit(dir, raw, mt, ops, fmt.Sprintf("m%d", i), nil)
+				res[i] = measured{dur: d, err: err}
+			}(i, ops)
+		}
+		done := make(chan struct{})
+		go func() { wg.Wait(); close(done) }()
+		select {
+		case <-done:
+		case <-time.After(mt + 10*time.Second):
+			s.Fail("C15/measured-deadlock", "MEASUREMENT: two commits over the same keys in opposite order did not return", "")
+			return nil
+		}
+		okN := 0
+		for i, r := range res {
+			check(fmt.Sprintf("opposite-order-%d", i), mt, r.dur, r.err, false)
+			if r.err == nil {
+				okN++
+			}
+		}
+		if okN == 0 {
+			s.Fail("C15/measured-no-progress", "MEASUREMENT: neither of two contending commits succeeded", fmt.Sprint(res[0].err, " / ", res[1].err))
+		}
+		s.Hit(fmt.Sprintf("opposite_order_committed_%d", okN))
+	case 1, 2: // a holder that never unlocks (killed): its lock dies with its TTL
+		ttl := 500 * time.Millisecond
+		mt := 3 * time.Second
+		if kind == 2 { // TTL longer than the waiter's budget: the waiter must give up in time
+			ttl, mt = 4*time.Second, 600*time.Millisecond
+		}
+		hdr(mt)
+		h := &caseRun{s: s, raw: raw, clock: &fakeClock{base: time.Now()}, foreign: sop.NewUUID()}
+		t0 := time.Now()
+		h.onFirstLock = func(ks []*sop.LockKey) {
+			if len(ks) == 0 {
+				return
+			}
+			fk := &sop.LockKey{Key: ks[len(ks)-1].Key, LockID: h.foreign}
+			raw.Lock(context.Background(), ttl, []*sop.LockKey{fk})
+			t0 = time.Now()
+		}
+		h.active = true
+		d, err := openAndCommit(dir, &deco{L2Cache: raw, h: h}, mt, txnOps{upd: []int{0, 100}}, "w", nil)
+		h.active = false
+		if kind == 1 {
+			check("dead-holder-ttl", mt, d, err, true)
+			if err == nil && time.Since(t0) < ttl {
+				s.Fail("C15/measured-lock-granted-before-ttl", "MEASUREMENT: the waiter committed before the dead holder's TTL elapsed", fmt.Sprint(time.Since(t0)))
+			}
+			if err == nil && d > ttl+2*time.Second {
+				s.Fail("C15/measured-ttl-not-honoured", "MEASUREMENT: the dead holder's lock was not free within TTL + 2 s", fmt.Sprint(d))
+			}
+		} else {
+			check("dead-holder-ttl-beyond-budget", mt, d, err, false)
+			if classify(err) != "timeout" {
+				s.Fail("C15/measured-expected-timeout", "MEASUREMENT: the waiter did not give up with a timeout", fmt.Sprint(err))
+			}
+			// nothing of the waiter's stays locked; after the holder's TTL a follow-up commits
+			time.Sleep(time.Until(t0.Add(ttl + 50*time.Millisecond)))
+		}
+	case 3, 4: // a stalled holder: T1 parked inside its commit while holding its node locks
+		stall := 500 * time.Millisecond
+		mt2 := 3 * time.Second
+		if kind == 4 {
+			stall, mt2 = 1500*time.Millisecond, 400*time.Millisecond
+		}
+		hdr(mt2)
+		parked := make(chan struct{})
+		var once sync.Once
+		sc := txk.NewScript(txk.NewCanon())
+		sc.Gate = func(idx int, name string) {
+			if name == "blob.Add" {
+				once.Do(func() { close(parked); time.Sleep(stall) })
+			}
+		}
+		var wg sync.WaitGroup
+		var r1 measured
+		wg.Add(1)
+		go func() {
+			defer wg.Done()
+			d, err := openAndCommit(dir, raw, 5*time.Second, txnOps{upd: []int{0, 100}}, "h", sc)
+			r1 = measured{dur: d, err: err}
+		}()
+		select {
+		case <-parked:
+		case <-time.After(5 * time.Second):
+			s.Fail("C15/harness-gate", "the holder never reached its gate", "")
+			wg.Wait()
+			return nil
+		}
+		d2, err2 := openAndCommit(dir, raw, mt2, txnOps{upd: []int{110, 10}}, "w", nil)
+		wg.Wait()
+		check("stalled-holder", 5*time.Second, r1.dur, r1.err, true)
+		if kind == 3 {
+			check("waiter-outlasts-stall", mt2, d2, err2, true)
+			if err2 == nil && d2 < stall-100*time.Millisecond {
+				s.Fail("C15/measured-waiter-overtook-holder", "MEASUREMENT: the waiter committed while the holder still held the node locks", fmt.Sprint(d2))
+			}
+		} else {
+			check("waiter-gives-up", mt2, d2, err2, false)
+			if classify(err2) != "timeout" {
+				s.Fail("C15/measured-expected-timeout", "MEASUREMENT: the waiter did not give up with a timeout", fmt.Sprint(err2))
+			}
+		}
+	}
+	// lock release after give-up / after everything: nothing live stays, a follow-up on the same keys commits
+	for _, le := range cache.VerifLockEntries(raw) {
+		if strings.HasPrefix(le.Key, "lock:") && len(le.Key) == 5+36 && le.Expiration.After(time.Now()) {
+			s.Fail("C15/locks-held-after-giveup", "MEASUREMENT: a node lock entry is still live after all commits returned", le.Key)
+		}
+	}
+	d, err := openAndCommit(dir, raw, 3*time.Second, txnOps{upd: []int{0, 10, 100, 110, 180, 190}}, "f", nil)
+	if err != nil && selfConf && strings.Contains(err.Error(), "call detected conflict") {
+		s.Fail("C15/item-lock-records-leak-after-self-conflict",
+			"MEASUREMENT: the item lock records of a transaction that gave up after its refetch self-conflict stay in the L2 cache: a follow-up on the same items fails until their TTL", err.Error())
+	} else if err != nil {
+		s.Fail("C15/follow-up-blocked", "MEASUREMENT: a follow-up transaction on the same keys could not commit", err.Error())
+	} else {
+		s.Hit("measured_followup_ok")
+	}
+	_ = d
+	return nil
+}
+
+// ---------------------------------------------------------------------------------------------------------
+
+func run(o hx.RunOpts) error {
+	s := hx.NewSession(o, "cases: (loop) a real write transaction over fs backends commits while an L2 decorator under the transaction and its registry "+
+		"decides every lock call of the phase-1 loop from a generated plan (refusals by a real foreign holder, conflicts by a real competitor commit, "+
+		"sector locks reported busy, injected clock advances on a fake sop.Now / fake context deadline); the observed decision sequence is replayed on Sop.Retry.step "+
+		"and next-call / iteration count / locks-held / clock / exit reason are diffed after every decision; (table) random Lock/Unlock/IsLocked sequences on the real in-memory L2 against the model's lock table; "+
+		"(bound) wall-clock MEASUREMENTS of Commit under contention against the bound + 2 s. distinct = canonical op-line hash; non-trivial = loop cases with at least two decisions, "+
+		"table cases with a refused multi-key Lock, every measurement")
+	p := hx.NewPrng(o.Seed)
+	sop.SetJitterRNG(rand.New(zeroSrc{}))
+	fsc := fs.VerifC15LockSectorRetryTimeout()
+	_ = fsc
+	for _, sc := range corpus() {
+		if err := runLoopCase(s, sc); err != nil {
+			return fmt.Errorf("%s: %w", sc.name, err)
+		}
+	}
+	n := o.N(140, 1500)
+	for i := 0; i < n; i++ {
+		sc := genScen(p, i)
+		if err := runLoopCase(s, sc); err != nil {
+			return fmt.Errorf("%s #%d: %w", sc.name, i, err)
+		}
+	}
+	n = o.N(300, 5000)
+	for i := 0; i < n; i++ {
+		runTableCase(s, p)
+	}
+	rounds := o.N(1, 6)
+	for r := 0; r < rounds; r++ {
+		for k := 0; k < 5; k++ {
+			if err := runMeasured(s, p, k); err != nil {
+				return fmt.Errorf("measured %d: %w", k, err)
+			}
+		}
+	}
+	s.Rep.Extra = map[string]any{
+		"measurement_note": "cases named `bound` are wall-clock measurements (tests), not proofs; slack 2 s",
+		"sector_cap_ms":    int64(fs.VerifC15LockSectorRetryTimeout() / time.Millisecond),
+	}
+	return s.Finish()
+}
